@@ -715,8 +715,26 @@ def dump(z):
     return [labels_of(z.origin) if z.origin is not None else None, nodes]
 
 
+def rd_key(rd):
+    """what Rdata.__eq__ compares: the DNSSEC canonical wire form (+ whether a relative name is involved)"""
+    try:
+        return (0, rd.to_digestable())
+    except dns.name.NeedAbsoluteNameOrOrigin:
+        return (1, rd.to_digestable(dns.name.root))
+
+
+def zcanon(z):
+    """the zone up to what zone equality ignores (every order, letter case of names), but with the TTLs"""
+    out = []
+    for name, node in z.nodes.items():
+        out.append((tuple(lower(x) for x in labels_of(name)),
+                    tuple(sorted((int(r.rdtype), int(r.covers), int(r.ttl), tuple(sorted(rd_key(rd) for rd in r)))
+                                 for r in node.rdatasets))))
+    return (tuple(lower(x) for x in labels_of(z.origin)) if z.origin is not None else None, tuple(sorted(out)))
+
+
 def canon(d):
-    """order-insensitive form of a dump (zone equality ignores every order), names lower-cased"""
+    """order-insensitive form of a dump (names lower-cased)"""
     origin, nodes = d
     out = []
     for n, rdss in nodes:
@@ -1084,7 +1102,7 @@ def impl(case):
             t = z.to_styled_text(st)
             if st.nl in (None, "\n"):
                 z2 = dns.zone.from_text(t, origin=oname(case[1]), relativize=bool(case[2]))
-                res.append([int(z2 == z), int(canon(dump(z2)) == canon(dump(z))), t.encode("latin-1", "replace")[:4000]])
+                res.append([int(z2 == z), int(zcanon(z2) == zcanon(z)), t.encode("latin-1", "replace")[:4000]])
             f = io.BytesIO()
             z.to_file(f, style=st)
             with tempfile.NamedTemporaryFile(delete=False) as tf:
@@ -1094,7 +1112,7 @@ def impl(case):
                 z3 = dns.zone.from_file(path, origin=oname(case[1]), relativize=bool(case[2]))
             finally:
                 os.unlink(path)
-            res.append([int(z3 == z), int(canon(dump(z3)) == canon(dump(z))), f.getvalue()[:4000]])
+            res.append([int(z3 == z), int(zcanon(z3) == zcanon(z)), f.getvalue()[:4000]])
             # (b') to_file(filename) / from_file(open text file object)
             d = tempfile.mkdtemp(prefix="c09f")
             try:
@@ -1108,12 +1126,12 @@ def impl(case):
                 for fn in os.listdir(d):
                     os.unlink(os.path.join(d, fn))
                 os.rmdir(d)
-            res.append([int(z5 == z), int(canon(dump(z5)) == canon(dump(z))), raw[:4000]])
+            res.append([int(z5 == z), int(zcanon(z5) == zcanon(z)), raw[:4000]])
             # (c) the keyword API: Zone.to_text(sorted, relativize, nl, want_comments, want_origin)
             t = z.to_text(sorted=st.sorted, relativize=st.relativize or z.relativize, nl="\n",
                           want_comments=st.want_comments, want_origin=st.want_origin)
             z4 = dns.zone.from_text(t, origin=oname(case[1]), relativize=bool(case[2]))
-            res.append([int(z4 == z), int(canon(dump(z4)) == canon(dump(z))), t.encode("latin-1", "replace")[:4000]])
+            res.append([int(z4 == z), int(zcanon(z4) == zcanon(z)), t.encode("latin-1", "replace")[:4000]])
             return res
         if op == 21:
             zs, codes = [], []
@@ -1126,7 +1144,7 @@ def impl(case):
                     codes.append(exc_code(e).code)
             if codes != [0, 0]:
                 return [codes[0], codes[1], 0, 0]
-            return [0, 0, int(zs[0] == zs[1]), int(canon(dump(zs[0])) == canon(dump(zs[1])))]
+            return [0, 0, int(zs[0] == zs[1]), int(zcanon(zs[0]) == zcanon(zs[1]))]
         if op == 6:
             rr = dns.zonefile.read_rrsets(bytes(case[3]).decode("latin-1"), rdclass=None, origin=oname(case[1]),
                                           relativize=bool(case[2]))
@@ -1150,13 +1168,13 @@ def impl(case):
                     os.unlink(os.path.join(d, fn))
                 os.rmdir(d)
             z3 = load(flat, case[1], case[2])
-            return [int(z1 == z3), int(canon(dump(z1)) == canon(dump(z3))), int(z2 == z3), int(canon(dump(z2)) == canon(dump(z3)))]
+            return [int(z1 == z3), int(zcanon(z1) == zcanon(z3)), int(z2 == z3), int(zcanon(z2) == zcanon(z3))]
         if op == 26:
             text = bytes(case[3]).decode("utf-8")
             z = dns.zone.from_text(text, origin=oname(case[1]), relativize=bool(case[2]))
             t = z.to_text(relativize=bool(case[2]))
             z2 = dns.zone.from_text(t, origin=oname(case[1]), relativize=bool(case[2]))
-            return [int(z2 == z), int(canon(dump(z2)) == canon(dump(z))), int(z2.unicode == z.unicode),
+            return [int(z2 == z), int(zcanon(z2) == zcanon(z)), int(z2.unicode == z.unicode),
                     int(t.startswith("$UNICODE"))]
         if op == 27:
             o = oname(case[1])
@@ -1299,10 +1317,41 @@ def extra(ctx):
                         f["case"] = case
                         f["case_kind"] = "roundtrip-exhaustive"
                         fails.append(f)
-    ctx.notes["exhaustive"] = not ctx.quick   # the sub-space named in exhaustive_scope; the other cases are sampled
+    # every spelling of one record line: owner x TTL x class x order x type x rdata name x layout
+    origin = [b"example", b""]
+    pre = b"$TTL 300\n@ 3600 IN SOA ns hostmaster 1 7200 900 1209600 300\n@ 3600 IN NS ns\nwww 300 IN A 10.0.0.1\n"
+    plain = pre + b"www 300 IN MX 10 mail\n"
+    for rel in (0, 1):
+        for own, ttl, cls, order, ty, tgt, lay in itertools.product(
+                (b"www", b"www.example.", b"WWW", None), (b"300", b"5m", b"0h5M0s", None), (b"IN", b"in", b"CLASS1", None),
+                (0, 1), (b"MX", b"mx", b"TYPE15"), (b"mail", b"mail.example.", b"MAIL.example."), (0, 1, 2, 3)):
+            if ctx.quick and (hash((own, ttl, cls, order, ty, tgt, lay, rel)) % 8):
+                continue
+            mid = [x for x in ((cls, ttl) if order else (ttl, cls)) if x is not None]
+            fields = ([own] if own is not None else []) + mid + [ty]
+            rd = [b"10", tgt]
+            if lay == 0:
+                line = b" ".join(fields + rd)
+            elif lay == 1:
+                line = b"\t".join(fields) + b" ( " + rd[0] + b"\n\t" + rd[1] + b" ) ; comment"
+            elif lay == 2:
+                line = b"  ".join(fields[:1]) + b" (\n" + b" ".join(fields[1:] + rd) + b"\n)" if own is not None else \
+                    b" ".join(fields) + b" (" + b" ".join(rd) + b")"
+            else:
+                line = b" ".join(fields) + b" " + rd[0] + b"\t" + rd[1] + b"   ;x"
+            if own is None:
+                line = b"    " + line
+            case = normalize_case([21, origin, rel, plain, pre + line + b"\n"])
+            out = impl(case)
+            n += 1
+            for f in oracle(ctx, "respell-exhaustive", case, out):
+                f["case"] = case
+                f["case_kind"] = "respell-exhaustive"
+                fails.append(f)
+    ctx.notes["exhaustive"] = not ctx.quick   # the sub-spaces named in exhaustive_scope; the other cases are sampled
     ctx.notes["extra_evaluations"] = n
     ctx.notes["extra_nontrivial"] = n
-    ctx.notes["exhaustive_scope"] = "style product sorted x want_origin x deduplicate_names x omit_rdclass x want_generic x want_comments x default_ttl{None,300} x (origin,relativize){(None,F),(o,T),(o,F)} x zone relativized/absolute on a fixed 8-name zone (quick: the even-parity half)"
+    ctx.notes["exhaustive_scope"] = "style product sorted x want_origin x deduplicate_names x omit_rdclass x want_generic x want_comments x default_ttl{None,300} x (origin,relativize){(None,F),(o,T),(o,F)} x zone relativized/absolute on a fixed 8-name zone (quick: the even-parity half); every spelling of one MX record line: owner {www, www.example., WWW, inherited} x TTL {300, 5m, 0h5M0s, omitted} x class {IN, in, CLASS1, omitted} x TTL/class order x type {MX, mx, TYPE15} x target {relative, absolute, other case} x 4 layouts (parentheses, tabs, comments) x relativized/absolute zone (quick: one eighth)"
     return fails
 
 
